@@ -97,7 +97,7 @@ def make_ipv4(two, full):
     def fn(en):
         A = _ctx_alpha()
         if two:
-            pre, post = "", ""
+            pre, post = sstr.fresh_str_upto(en, "pre", 1, A), ""        # the first address may be glued to a word in front of it
             if full:
                 ip1 = K.gen_ipv4(en, "ip1", ["z"])
                 ip2 = K.gen_ipv4(en, "ip2", ["z"])
@@ -489,6 +489,84 @@ def make_exempt_sequence(calls):
     return fn
 
 
+# ------------------------------------------------------------------ O9: the user's exclusions as they reach the cleaner through collect()
+USER_FORMS = {
+    "plain": ({"patterns": ["SECRET", "tok12"]}, ["x SECRET y", "a tok12 b"]),
+    "regex": ({"patterns": {"regex": ["SEC.ET", "tok[[:digit:]]+"]}}, ["x SECRET y", "a tok12 b"]),
+    "keywords": ({"keywords": ["ukw"]}, []),
+    "plain+keywords": ({"patterns": ["SECRET", "tok12"], "keywords": ["ukw"]}, ["x SECRET y", "a tok12 b"]),
+    "regex+keywords": ({"patterns": {"regex": ["SEC.ET", "tok[[:digit:]]+"]}, "keywords": ["ukw"]}, ["x SECRET y", "a tok12 b"]),
+}
+MANIFEST_FORMS = {"empty": {"patterns": [], "keywords": []}, "absent": {}, "patterns": {"patterns": ["MANIFEST_ONLY"], "keywords": []},
+                  "keywords": {"patterns": [], "keywords": ["mkw"]}, "both": {"patterns": ["MANIFEST_ONLY"], "keywords": ["mkw"]}}
+
+
+class _ClientConfig(object):
+    obfuscate = False
+    obfuscate_ipv6 = obfuscate_hostname = obfuscate_mac = False
+    cmd_timeout = None
+    manifest = None
+
+    def __getattr__(self, name):
+        return None
+
+
+def collect_then_clean(user_form, manifest_form):
+    """insights.collect.collect() with a minimal manifest (blacklist section per `manifest_form`) and the user's exclusions; the cleaner
+    it builds then cleans a small content.  Returns the problems found"""
+    import copy, shutil, tempfile
+    from insights import collect
+    rm, drop = USER_FORMS[user_form]
+    built = []
+    real = collect.Cleaner
+
+    def recording(*a, **k):
+        c = real(*a, **k)
+        c.generate_report = lambda archive_name: None       # (the reports go to a fixed /tmp location; they are C09's subject)
+        built.append(c)
+        return c
+    collect.Cleaner = recording
+    base = tempfile.mkdtemp(prefix="c08col_")
+    try:
+        man = {"version": 0, "client": {"context": {"class": "insights.core.context.HostContext"}, "blacklist": copy.deepcopy(MANIFEST_FORMS[manifest_form]),
+                                         "persist": [], "run_strategy": {"name": "serial"}},
+               "plugins": {"default_component_enabled": False, "packages": [], "configs": []}}
+        try:
+            collect.collect(manifest=man, tmp_path=base, archive_name="arch", rm_conf=copy.deepcopy(rm), client_config=_ClientConfig())
+        except Exception as ex:  # noqa
+            return ["collect() raised %r" % (ex,)]
+        if not built:
+            return ["collect() built no cleaner"]
+        content = ["x SECRET y", "a tok12 b", "has ukw inside", "plain line"]
+        out = built[0].clean_content(list(content))
+        bad = []
+        for ln in drop:
+            if ln in out:
+                bad.append("the line %r matches a user-configured exclusion pattern (%s form) and is still there" % (ln, user_form))
+        if "keywords" in rm and any("ukw" in o for o in out):
+            bad.append("the user-configured keyword 'ukw' is still there")
+        if "plain line" not in out:
+            bad.append("an innocent line was dropped")
+        return bad
+    finally:
+        collect.Cleaner = real
+        shutil.rmtree(base, ignore_errors=True)
+
+
+def make_collect_config():
+    def fn(en):
+        uf = sorted(USER_FORMS)[en.choice("user_form", len(USER_FORMS))]
+        mf = sorted(MANIFEST_FORMS)[en.choice("manifest_form", len(MANIFEST_FORMS))]
+        case = lambda mv: {"kind": "collect-config", "user_form": uf, "manifest_form": mf}  # noqa
+        en.note_sample(case)
+        from symx import sandbox
+        from insights.core import dr as _dr
+        with sandbox.dr_registry(_dr):
+            bad = collect_then_clean(uf, mf)
+        en.must_hold(not bad, "stored-content-cleaned", case, detail=bad)
+    return fn
+
+
 def obligations(tier):
     thorough = tier == "thorough"
     enc = [CL.Cleaner.clean_content, IPM.IPv4.parse_line, IPM.IPv4._ip2db, MACM.Mac.parse_line, MACM.Mac._mac2db, HNM.Hostname.parse_line, HNM.Hostname._hn2db,
@@ -525,6 +603,11 @@ def obligations(tier):
                    bounds={"tokens": "IPv4 (first octet every shape) / keyword / system fqdn", "context": "0-1 char on each side", "exemption": "on / off, plus an unrelated exemption on / off", "no_redact": "on / off"},
                    stubs=K.STUBS + ["open() / fs.ensure_path of spec_factory record instead of touching the disk; str.encode carried through"], outside=outside,
                    encoded=[SF.ContentProvider._clean_content, SF.ContentProvider.write], budget_s=600 if thorough else 150, replay="clean", check_sample=True),
+        Obligation("O9-exclusions-through-collect", make_collect_config(), ["stored-content-cleaned"],
+                   desc="the user's exclusion patterns (plain and regular-expression notation) and keywords handed to insights.collect.collect() together with a manifest whose own blacklist section is absent, empty or "
+                        "not empty: the cleaner that collect() builds still drops every line matching a user pattern and every user keyword (finite exploration, real entry point)",
+                   bounds={"user configuration": sorted(USER_FORMS), "manifest blacklist": sorted(MANIFEST_FORMS)}, stubs=["collect.Cleaner is wrapped to keep the cleaner that collect() builds, its report generation (fixed /tmp location) is switched off; nothing is collected (no component enabled)"],
+                   outside=["spec collection itself (O8)"], encoded=[CL.Cleaner.__init__], budget_s=200, replay="clean", check_sample=True),
         Obligation("O7-exemptions", make_exempt(), ["exemption-exact"], desc="no_obfuscate switches exactly the named obfuscator off", bounds={"obfuscators": 5},
                    stubs=K.STUBS, encoded=enc[:1], budget_s=60, replay="clean", check_sample=True),
         Obligation("O7b-exemption-sequence", make_exempt_sequence(3 if thorough else 2), ["exemption-exact"],
@@ -541,6 +624,8 @@ import re as _re  # noqa: E402
 def _native(case):
     kind = case["kind"]
     bad = []
+    if kind == "collect-config":
+        return collect_then_clean(case["user_form"], case["manifest_form"])
     if kind == "ipv4":
         cl = K.make_cleaner(K.Cfg(hostname=False, mac=False))
         try:
